@@ -34,7 +34,7 @@ def run(tier, seed, replay=None):
     late = out["harness"]["counters"].get("late", 0) if out["harness"].get("counters") else 0
     for d in out["diffs"]:
         final = d["segment"][-1]
-        v.violation("C01:final:" + "+".join(sorted(set(x.split(":")[1] for x in d["fields"]))),
+        v.violation("C01:final:" + (final.get("tag") + ":" if final.get("tag") else "") + "+".join(sorted(set(x.split(":")[1] for x in d["fields"]))),
                     "after the events stopped and more than 6x the convergence bound had passed, the mesh of scenario %s is not converged: %s"
                     % (final.get("sc"), d["fields"]), {"final": final})
     nt = nodetrace.validate(wd, [hooks], timeout=3000)
@@ -60,6 +60,6 @@ def run(tier, seed, replay=None):
         "tlc_design": {"spec": "Netceptor.tla", "cfg": cfg, "generated": r.generated, "distinct": r.distinct, "wall_s": round(r.wall, 1)},
     }
     return v.finish("model_checking", cov, assumptions=[
-        "links deliver control messages in order (memnet FIFO); restarted nodes start in a later wall-clock second than the instance they replace",
+        "links deliver control messages in order (memnet FIFO); restarted nodes start later than the instance they replace on the same clock (no minimum distance; a fast-restart scenario restarts a transit node ten times within about two seconds)",
         "a final state is judged only after LooksConverged held 3 times in a row or 6x the bound (20 update periods, +8 s with silent failures) elapsed",
     ])
